@@ -214,7 +214,7 @@ def main(ck):
             for l in range(9):
                 for r in range(9): reqs.append('docacc %d %d %d' % (t, l, r))
                 reqs.append('docaccu %d %d' % (t, l))
-        reqs += ['classes', 'comm']
+        reqs += ['classes', 'comm', 'sigs']
         try:
             ans = ck.driver('Types', reqs)
             lean = dict(zip(reqs, ans)); driver_ok = True
@@ -309,7 +309,7 @@ def main(ck):
         for l in cls:
             for rr in cls:
                 if TY.index(nm(l)) < TY.index(nm(rr)) and promote(l, rr, r['ttc'], r['rt']) != promote(rr, l, r['ttc'], r['rt']):
-                    if r in templ: comm_scripts.append((r['name'], str(r['op']), nm(l), nm(rr)))
+                    if r in templ: comm_scripts.append(('%s.%s' % (r['module'], r['name']), str(r['op']), nm(l), nm(rr)))
                     else: asym_unreachable.append('%s.%s(%s,%s)' % (r['module'], r['name'], nm(l), nm(rr)))
     set_asym = set()
     for x in comm_sites:
@@ -320,7 +320,7 @@ def main(ck):
                 if TY.index(nm(l)) < TY.index(nm(rr)) and promote(l, rr, t_, u_) != promote(rr, l, t_, u_):
                     set_asym.add((x['cls'], nm(l), nm(rr)))
     for (c, l, r) in sorted(set_asym):
-        if 'Null' not in (l, r): comm_scripts.append((c, COMM_SET[c], l, r))
+        if 'Null' not in (l, r): comm_scripts.append((COMM_SET[c], COMM_SET[c], l, r))
     ck.note('asymmetric_but_unreachable', sorted(set(asym_unreachable)))  # HR operators: both operands come from one measure
 
     # ---------------------------------------------------------------- K2 + property on semantic_analysis()
@@ -348,10 +348,16 @@ def main(ck):
     ck.note('k2_scripts', len(outs))
 
     k2_bad, covered = [], set()
+    sigs = {}
+    if driver_ok:
+        for ent in lean['sigs'].split(';'):
+            c_, a_, b_ = ent.split(':')
+            sigs[c_.split('.')[-1]] = (None if a_ == '9' else TY[int(a_)], None if b_ == '9' else TY[int(b_)])
     for (r, lv, p, s) in cases:
         o = outs[s]
         t_, u_ = r['ttc'], r['rt']
         tn, un = (None if t_ is None else nm(t_)), (None if u_ is None else nm(u_))
+        attrs = (tn, un)
         got_acc, got_res = o[0] == 'ok', result_type(o)
         q = ('bin %d %d %d %d' % (IX[p[0]], IX[p[1]], 9 if t_ is None else IX[tn], 9 if u_ is None else IX[un])) if len(p) == 2 else \
             ('un %d %d %d' % (IX[p[0]], 9 if t_ is None else IX[tn], 9 if u_ is None else IX[un]))
@@ -362,20 +368,24 @@ def main(ck):
             la = lean[q]
             if (la.startswith('ok') != got_acc) or (got_acc and la != 'ok %d' % IX.get(got_res, -1)):
                 k2_bad.append({'class': '%s.%s' % (r['module'], r['name']), 'level': lv, 'types': p, 'script': s, 'lean': la, 'engine': repr(o)[:160]})
-        # property on the engine outcome: acceptance and result type against the documented table
+        # property on the engine outcome: acceptance and result type against the documented table, for the operand /
+        # result type the VTL reference manual gives the operator (Spec.opSpec) when it is listed there
+        if T.cls_ident(r) in sigs:
+            tn, un = sigs[T.cls_ident(r)]
         if doc:
             dacc = d_acc(tn, *p) if len(p) == 2 else d_accu(tn, *p)
             if dacc != got_acc:
                 ck.violation('accept_doc:%s.%s:%s:%s' % (r['module'], r['name'], lv, ','.join(p)),
                              {'kind': 'scripts', 'scripts': [s], 'outcome': repr(o), 'documented_accept': dacc,
-                              'type_to_check': tn, 'levels': lv},
+                              'operand_type_of_operator': tn, 'class_attributes': attrs, 'levels': lv},
                              'semantic_analysis %s operands (%s) of %s at %s level; the documented implicit table says %s' % (
                                  'accepts' if got_acc else 'rejects', ', '.join(p), r['op'], lv, 'accept' if dacc else 'reject'))
             elif got_acc and got_res is not None:
                 ok = (got_res == un) if un is not None else (d_res(tn, p[0], p[1], got_res) if len(p) == 2 else d_resu(tn, p[0], got_res))
                 if not ok:
                     ck.violation('result_doc:%s.%s:%s:%s->%s' % (r['module'], r['name'], lv, ','.join(p), got_res),
-                                 {'kind': 'scripts', 'scripts': [s], 'outcome': repr(o), 'return_type': un, 'type_to_check': tn},
+                                 {'kind': 'scripts', 'scripts': [s], 'outcome': repr(o), 'documented_return_type': un,
+                                  'operand_type_of_operator': tn, 'class_attributes': attrs},
                                  'semantic_analysis types %s(%s) as %s at %s level, not a documented result type' % (r['op'], ', '.join(p), got_res, lv))
     ck.note('classes_through_semantic_analysis', sorted(covered))
     ck.note('classes_function_level_only', sorted({'%s.%s' % (r['module'], r['name']) for r in rows} - covered))
@@ -389,7 +399,7 @@ def main(ck):
         oa, ob = outs[a], outs[b]
         ck.count(('swap', cname, lv, l, r))
         if (oa[0] == 'ok') != (ob[0] == 'ok') or result_type(oa) != result_type(ob):
-            fam.setdefault((op, l, r), []).append({'level': lv, 'scripts': [a, b], 'outcomes': [repr(oa), repr(ob)]})
+            fam.setdefault((cname, l, r), []).append({'level': lv, 'op': op, 'scripts': [a, b], 'outcomes': [repr(oa), repr(ob)]})
     for (op, l, r), reps in sorted(fam.items()):
         ck.violation('operand_order:%s:%s,%s' % (op, l, r), {'kind': 'swap', 'op': op, 'cases': reps},
                      'result type of the commutative operator %s depends on operand order: %s vs %s' % (op, reps[0]['outcomes'][0][:90], reps[0]['outcomes'][1][:90]))
@@ -414,6 +424,8 @@ def main(ck):
         ck.unproved('translator', e)
     if pr is not None and not proof_ok:
         det = {'failed': pr['failed'], 'forbidden': pr['forbidden'], 'bad_axioms': pr['bad_axioms'], 'log_tail': pr['log'][-1500:]}
+        if pr['forbidden'] or pr['bad_axioms']:
+            ck.unproved('C11.audit', 'forbidden construct or axiom audit failure: %r %r' % (pr['forbidden'], pr['bad_axioms'][:3]), det)
         for f in (pr['failed'] or ['<audit>']):
             if not ck.viol or all(v[3] for v in ck.viol):
                 ck.unproved('C11.' + f, 'theorem no longer checks and no failing input of the property was found on the real code', det)
